@@ -349,6 +349,13 @@ def moduleTimeline (v : Variant) (sim : Timeline) (p : ModPars) : Except Err Tim
   let a ← makeAbstvec v t sim
   pure { t with abstvec := some a }
 
+/-! ### the integration loop's placement (`Loop.collect_abs_tvecs`, `Loop.make_plan`) -/
+
+/-- `Loop.collect_abs_tvecs` / `Loop.make_plan`: the elapsed sim times at which the loop schedules each function of an owner —
+    one call per point of the owner's `abstvec` (the sim's own functions and those of `people`: the sim's `abstvec`; a
+    module's functions: the module's own `abstvec`, whatever its length) -/
+def loopPlacement (owner : Timeline) : List Rat := owner.abstvec.getD []
+
 /-! ### `Time.update` and `Time.now` -/
 
 /-- the four time arguments as held by an uninitialised `Time` (or given as `pars` / `kwargs` / a parent) -/
